@@ -29,6 +29,7 @@ type histMode struct {
 	serverDoc  bool                             // compare server-side rebuilds with the change-by-change replica
 	cacheOnly  bool                             // ... with the rebuild from the store alone instead (C20)
 	optOutSome bool                             // one history in seven runs with opt-out attachments only
+	probeLWW   bool                             // end every history with the remote-Set probe of restored object members (hist.probeLWW)
 	smallSnap  bool                             // half of the histories run on projects with tiny snapshot interval/threshold
 	proto      bool                             // emit protocol-model cases
 	twin       string                           // "", "nogc"
@@ -138,18 +139,18 @@ func modeFor(prop string) (*histMode, error) {
 			},
 			roracle: func(r *hist.Run) []hist.Problem { return append(hist.CheckMinVV(r), hist.CheckLamportCausal(r)...) }, proto: true, smallSnap: true}, nil
 	case "C15":
-		return &histMode{flavors: []string{"object", "array", "arraymove", "text", "counter", "tree", "mixed"}, smallSnap: true, serverDoc: true,
+		return &histMode{flavors: []string{"object", "array", "arraymove", "text", "counter", "tree", "mixed", "objnest"}, smallSnap: true, serverDoc: true,
 			gen: hist.GenConfig{NoMovedSet: true, MinClients: 2, MaxClients: 3, MinSteps: 8, MaxSteps: 30, Undo: true, Late: true, Inflight: true},
 			oracle: func(h *hist.History, o *hist.Outcome) []hist.Problem {
 				return append(append(baseOracle(h, o), hist.CheckConvergence(o)...), hist.CheckCloneRoot(o)...)
 			}}, nil
 	case "C08":
-		return &histMode{optOutSome: true, flavors: append(append([]string{}, all...), "tree", "treex"),
+		return &histMode{optOutSome: true, probeLWW: true, flavors: append(append([]string{}, all...), "tree", "treex", "objnest"),
 			gen: hist.GenConfig{MinClients: 1, MaxClients: 3, MinSteps: 6, MaxSteps: 30, FailUpd: true, Undo: true, Presence: true},
 			oracle: func(h *hist.History, o *hist.Outcome) []hist.Problem {
 				var ps []hist.Problem
 				for _, p := range o.Problems {
-					if strings.HasPrefix(p.Kind, "failed-update") || p.Kind == "failing-update-succeeded" {
+					if strings.HasPrefix(p.Kind, "failed-update") || p.Kind == "failing-update-succeeded" || p.Kind == "clone-probe-differs" {
 						ps = append(ps, p)
 					}
 				}
@@ -426,6 +427,9 @@ func runHist(cfg *config) error {
 			// settings above (parity), and finding P16 needs all three
 			h.NoPresenceDoc = true
 			h.LateNoFlag = hr.Bool()
+		}
+		if mode.probeLWW {
+			h.ProbeLWW = true
 		}
 		if mode.optOutSome && i%7 == 6 {
 			// every client of this history attaches WithDisableGC (an opt-out attachment: its changes
